@@ -200,6 +200,7 @@ def run(col, configs, tier):
         guarded(col, rule_panic_inventory, facts)
         guarded(col, X.rule_bigfloat_bits, facts)
         guarded(col, X.rule_binary_factor, facts)
+        guarded(col, X.rule_slice_length_pairing, facts)
         # the `_ => unreachable!()` arm of every peek dispatch is unreachable only if all 16 flag combinations are arms
         guarded(col, SEP.rule_peek_dispatch, facts)
         guarded(col, X.rule_exponent_bound, facts)
